@@ -17,7 +17,9 @@ amount <inc> <n>                            → A <num>/<den>                   
 kstep <inc> <equal> <count> <n> <step> …    → K <num>/<den>                       Current_step
 added <inc> <nsteps>                        → D name:num/den …   what the reaction adds over the steps of one simulation
 inv <id>                                    → I name:num/den …
-assemble <id> <inc> <n>                     → T name:num/den …   totals handed to the solver + what stays in pp/ss
+kintotals name:val …                        kinetics_ptr->totals handed to step()
+assemble <id> <inc> <n>                     → T <massbalance 0|1> name:num/den …  totals after solution_check ; P moles… ; S moles…
+judgestep <before> <after> <inc> <k> <tol> <chargeScale> <floor>   as judge, for the single step k
 judge <before> <after> <inc> <nsteps> <tol> <chargeScale> <floor>
           → J <hexname> <before> <added> <after> <diff> <scale> <ok 0|1|2>  (floats as hex; 2 = below floor, not judged), then "E"
 ```
@@ -58,6 +60,7 @@ def formulaOf (h : String) : Inventory.Formula :=
 structure St where
   cells : List (String × Cell) := []
   rxn : Option Reaction := none
+  kinTotals : ND := []
 
 def St.getCell (st : St) (id : String) : Cell := (st.cells.lookup id).getD { sols := [] }
 def St.setCell (st : St) (id : String) (c : Cell) : St :=
@@ -145,14 +148,19 @@ def step (st : St) (line : String) : St × List String :=
     | some r => (st, [s!"D{entries (ofList (addedOver (inc == "1") r ns.toNat!))}"])
     | none => (st, ["D"])
   | ["inv", id] => (st, [s!"I{entries (inventory (st.getCell id))}"])
+  | "kintotals" :: rest => ({ st with kinTotals := pairs rest }, [])
   | ["assemble", id, inc, n] =>
-    let a := assemble (st.getCell id) st.rxn (inc == "1") n.toNat! 1 []
-    (st, [s!"T{entries (ofList (a.totals.asList ++ a.pp.flatMap amountContribs ++ a.ss.flatMap amountContribs))}"])
-  | ["judge", b, a, inc, ns, tol, cs, fl] =>
+    let ac := assembleChecked (st.getCell id) st.rxn (inc == "1") n.toNat! 1 st.kinTotals
+    let a := ac.1
+    (st, [s!"T {if ac.2 then 1 else 0}{entries a.totals.asList}",
+          "P" ++ String.join (a.pp.map fun x => " " ++ ratStr x.moles),
+          "S" ++ String.join (a.ss.map fun x => " " ++ ratStr x.moles)])
+  | [jop, b, a, inc, ns, tol, cs, fl] =>
+    if jop != "judge" && jop != "judgestep" then (st, ["? " ++ line]) else
     let cb := contribs (st.getCell b)
     let ca := contribs (st.getCell a)
     let add := match st.rxn with
-      | some r => addedOver (inc == "1") r ns.toNat!
+      | some r => if jop == "judgestep" then reactionContribs (inc == "1") r ns.toNat! 1 else addedOver (inc == "1") r ns.toNat!
       | none => []
     let ib := ofList cb
     let ia := ofList ca
